@@ -41,13 +41,14 @@ type tEvent struct {
 func (e tEvent) String() string { return e.Name + "(" + strings.Join(e.Args, ", ") + ")" }
 
 type tstate struct {
-	mem    map[string]string    // symbolic store: path -> term
-	symv   map[ssa.Value]string // values named at definition time (loads, call results)
-	events []tEvent
-	dead   bool
-	conds  []string
-	nres   int
-	extra  map[string]string // client data
+	mem     map[string]string    // symbolic store: path -> term
+	symv    map[ssa.Value]string // values named at definition time (loads, call results)
+	events  []tEvent
+	dead    bool
+	conds   []string
+	nres    int
+	extra   map[string]string // client data
+	private map[string]bool   // locals no call can change (privateAlloc)
 }
 
 func newTState() *tstate {
@@ -66,6 +67,12 @@ func (s *tstate) Clone() UserState {
 	}
 	for k, v := range s.extra {
 		q.extra[k] = v
+	}
+	if len(s.private) > 0 {
+		q.private = make(map[string]bool, len(s.private))
+		for k, v := range s.private {
+			q.private[k] = v
+		}
 	}
 	return q
 }
@@ -428,6 +435,17 @@ func (e *termEnv) compute(v ssa.Value) string {
 	case *ssa.UnOp:
 		switch x.Op {
 		case token.MUL:
+			if av, ok := frozenLoad(e.c, e.p, x.X, func(iv ssa.Value) (int64, bool) {
+				k, err := strconv.ParseInt(e.T(iv), 10, 64)
+				return k, err == nil
+			}); ok && e.c != nil {
+				if k, isInt := av.Int(); isInt {
+					return strconv.FormatInt(k, 10)
+				}
+				if b, isB := av.Bool(); isB {
+					return strconv.FormatBool(b)
+				}
+			}
 			p := e.cpath(x.X)
 			if t, ok := e.s.mem[p]; ok {
 				return t
@@ -737,9 +755,31 @@ func collectTermPaths(c *Ctx, spec termSpec) (paths []termPath, overflow bool) {
 				}
 			}
 		}
+		if al, isAl := ins.(*ssa.Alloc); isAl && privateAlloc(c, al, 0) {
+			if s.private == nil {
+				s.private = map[string]bool{}
+			}
+			s.private[env.cpath(al)] = true
+		}
 		switch x := ins.(type) {
 		case *ssa.Store:
-			s.mem[env.cpath(x.Addr)] = env.T(x.Val)
+			dst, val := env.cpath(x.Addr), env.T(x.Val)
+			// a whole struct copied from another local (a by-value result of a helper): the fields known
+			// for the source are known for the destination (a snapshot); older fields of it are gone
+			if _, isSt := x.Val.Type().Underlying().(*types.Struct); isSt && strings.HasPrefix(val, "@alloc:") && strings.HasPrefix(dst, "alloc:") {
+				src := val[1:]
+				for k := range s.mem {
+					if strings.HasPrefix(k, dst+".") || strings.HasPrefix(k, dst+"[") {
+						delete(s.mem, k)
+					}
+				}
+				for k, t := range s.mem {
+					if strings.HasPrefix(k, src+".") || strings.HasPrefix(k, src+"[") {
+						s.mem[dst+k[len(src):]] = t
+					}
+				}
+			}
+			s.mem[dst] = val
 		case *ssa.Call:
 			if _, isB := x.Call.Value.(*ssa.Builtin); isB {
 				return true
@@ -782,13 +822,16 @@ func collectTermPaths(c *Ctx, spec termSpec) (paths []termPath, overflow bool) {
 					if spec.KeepMem != nil && spec.KeepMem(k) {
 						continue
 					}
+					if s.private[allocRoot(k)] {
+						continue
+					}
 					if memMayChange(k, ms) {
 						delete(s.mem, k)
 					}
 				}
 			} else {
 				for k := range s.mem {
-					if spec.KeepMem == nil || !spec.KeepMem(k) {
+					if (spec.KeepMem == nil || !spec.KeepMem(k)) && !s.private[allocRoot(k)] {
 						delete(s.mem, k)
 					}
 				}
@@ -882,6 +925,76 @@ func negTerm(t string) string {
 
 // memMayChange: the symbolic location named by path key may be written by a callee with
 // the given mod set (field-based: last field name on the path).
+// privateAlloc: a local whose address never leaves the function except into new helpers (which
+// the walker steps through) that use it for field access only: no other call can change it.
+func privateAlloc(c *Ctx, v ssa.Value, depth int) bool {
+	if depth > 3 || v.Referrers() == nil {
+		return false
+	}
+	for _, ref := range *v.Referrers() {
+		switch x := ref.(type) {
+		case *ssa.Store:
+			if x.Val == v {
+				return false
+			}
+		case *ssa.UnOp, *ssa.DebugRef:
+		case *ssa.FieldAddr:
+			if !privateAlloc(c, x, depth+1) {
+				return false
+			}
+		case *ssa.IndexAddr:
+			if x.X != v || !privateAlloc(c, x, depth+1) {
+				return false
+			}
+		case *ssa.Call:
+			cal := x.Call.StaticCallee()
+			if cal == nil || !c.IsNew(cal) || len(cal.Params) != len(x.Call.Args) {
+				return false
+			}
+			for i, a := range x.Call.Args {
+				if a == v && !privateAlloc(c, cal.Params[i], depth+1) {
+					return false
+				}
+			}
+		default:
+			return false
+		}
+	}
+	return true
+}
+
+// allocRoot: "alloc:t1.symbol[3]" -> "alloc:t1"; "alloc:helper.t0.m" -> "alloc:helper.t0".
+func allocRoot(k string) string {
+	if !strings.HasPrefix(k, "alloc:") {
+		return ""
+	}
+	rest := k[len("alloc:"):]
+	if n := allocNameLen(rest); n > 0 {
+		return k[:len("alloc:")+n]
+	}
+	if i := strings.Index(rest, "."); i >= 0 {
+		if n := allocNameLen(rest[i+1:]); n > 0 {
+			return k[:len("alloc:")+i+1+n]
+		}
+	}
+	return k
+}
+
+// allocNameLen: length of a leading register name tN that ends the component.
+func allocNameLen(s string) int {
+	if len(s) < 2 || s[0] != 't' {
+		return 0
+	}
+	j := 1
+	for j < len(s) && s[j] >= '0' && s[j] <= '9' {
+		j++
+	}
+	if j > 1 && (j == len(s) || s[j] == '.' || s[j] == '[' || s[j] == '{') {
+		return j
+	}
+	return 0
+}
+
 func memMayChange(key string, ms *modSet) bool {
 	if ms == nil || ms.all {
 		return true
